@@ -37,26 +37,36 @@ def AXES(tier):
 
 
 def cases(tier, seed):
-    out = [{"family": "operator", "b": b, "shape": [4, 5, 6], "array": k} for b in range(1, 7) for k in KINDS]
+    """thorough: the full product.  quick: the full product of (image shape, b, box, order) with the remaining axes
+    (array kind, compute, loader kind, scale) assigned round-robin so that every value - and every (array, compute,
+    loader) triple - is visited many times, plus every (loader, array, compute) triple on a fixed geometry."""
+    # b larger than an axis would give an empty image: outside the statement (there is no block to sum)
+    out = [{"family": "operator", "b": b, "shape": [4, 5, 6], "array": k} for b in range(1, 5) for k in KINDS]
+    out += [{"family": "operator", "b": b, "shape": [6, 7, 6], "array": k} for b in (5, 6) for k in KINDS]
+    combos = [(a, c) for a in KINDS for c in (True, False)]
+    lks = ("single", "batch2", "batch3")
+    rr = 0
     for ishape in IMG_SHAPES:
         for b in range(1, 7):
-            for arr in KINDS:
-                for compute in (True, False):
-                    for lk in ("single", "batch2", "batch3"):
-                        for box in BOXES:
-                            if any(b * s > n for s, n in zip(box, ishape)):
-                                continue
-                            for order in (0, 1, 3):
-                                for scale in (1.0, 0.7):
-                                    if tier == "quick":
-                                        if lk == "batch3" and not (arr == "dask:4,5,3"):
-                                            continue
-                                        if scale == 0.7 and order == 3 and box != (3, 3, 3):
-                                            continue
-                                        if arr == "dask:whole" and box in ((1, 1, 1), (2, 3, 1)):
-                                            continue
-                                    out.append({"family": "loader", "ishape": list(ishape), "b": b, "array": arr, "compute": compute,
-                                                "loader": lk, "box": list(box), "order": order, "scale": scale, "seed": seed})
+            for box in BOXES:
+                if any(b * s > n for s, n in zip(box, ishape)):
+                    continue
+                for order in (0, 1, 3):
+                    if tier == "thorough":
+                        for (arr, compute), lk, scale in itertools.product(combos, lks, (1.0, 0.7)):
+                            out.append({"family": "loader", "ishape": list(ishape), "b": b, "array": arr, "compute": compute,
+                                        "loader": lk, "box": list(box), "order": order, "scale": scale, "seed": seed, "tier": tier})
+                    else:
+                        arr, compute = combos[rr % len(combos)]
+                        lk = lks[(rr // len(combos)) % 3]
+                        scale = (1.0, 0.7)[(rr // 7) % 2]
+                        rr += 1
+                        out.append({"family": "loader", "ishape": list(ishape), "b": b, "array": arr, "compute": compute,
+                                    "loader": lk, "box": list(box), "order": order, "scale": scale, "seed": seed, "tier": tier})
+    if tier == "quick":
+        for (arr, compute), lk, b in itertools.product(combos, lks, (2, 3)):
+            out.append({"family": "loader", "ishape": [7, 8, 9], "b": b, "array": arr, "compute": compute,
+                        "loader": lk, "box": [2, 2, 2], "order": 1, "scale": 1.0, "seed": seed, "tier": tier})
     return out
 
 
@@ -80,7 +90,7 @@ def _as_array(a, kind):
     return da.from_array(a, chunks=tuple(int(c) for c in spec.split(",")))
 
 
-def _sites(ishape, b, box):
+def _sites(ishape, b, box, full=False):
     """binned-grid pixel coordinates (per axis lists) for which the b*s box is inside the image"""
     per_axis = []
     for n, s in zip(ishape, box):
@@ -96,12 +106,17 @@ def _sites(ishape, b, box):
     if all(per_axis):
         mid = [v[len(v) // 2] for v in per_axis]
         for ax in range(3):
-            for v in per_axis[ax]:
+            vals = per_axis[ax] if full else []
+            for v in vals:
                 p = list(mid)
                 p[ax] = v
                 sites.append(tuple(p))
-        for i in range(min(len(v) for v in per_axis)):
+        nd = min(len(v) for v in per_axis)
+        for i in (range(nd) if full else (0, nd - 1)):
             sites.append(tuple(v[i] for v in per_axis))
+        if not full:  # quick: lowest corner, highest corner, centre, and one mixed corner
+            sites.append(tuple(mid))
+            sites.append((per_axis[0][0], per_axis[1][-1], per_axis[2][0]))
     return sorted(set(sites))
 
 
@@ -125,7 +140,7 @@ def run_case(case):
             e = e.reshape(shape)
             got = np.asarray(bin_image(_as_array(e, case["array"]), b))
             ref = blocksum(e, b)
-            if got.shape != ref.shape or np.abs(got - ref).max() > 1e-6:
+            if got.shape != ref.shape or (ref.size and np.abs(got - ref).max() > 1e-6):
                 viol.append((sig("operator"), f"b={b}, shape {shape}, impulse {np.unravel_index(j, shape)}: result differs from the block sum (shape {got.shape} vs {ref.shape})"))
                 break
         return {"nontrivial": b >= 2, "outcome": f"operator|{'viol' if viol else 'ok'}", "viol": viol}
@@ -136,7 +151,7 @@ def run_case(case):
     rng = np.random.default_rng(case["seed"] * 7 + 11)
     nimg = {"single": 1, "batch2": 2, "batch3": 3}[lk]
     imgs = [rng.standard_normal(ishape).astype(np.float32) for _ in range(nimg)]
-    sites = _sites(ishape, b, box)
+    sites = _sites(ishape, b, box, full=case.get("tier") == "thorough")
     sig = lambda what: f"{ID}|{lk}|{what}|compute={compute}|{case['array'].split(':')[0]}"  # noqa
     if not sites:
         return {"nontrivial": False, "outcome": "no-site", "viol": []}
